@@ -31,7 +31,8 @@ IDEALISATIONS = [
     'termination is not proved (partial correctness); for-loops over finite sequences terminate',
     'python semantics assumed: attribute lookup resolves through the class hierarchy scanned from /repo, no '
     'monkey-patching, dict order = insertion order, exceptions carry their class only',
-    'third-party functions (numpy, scipy, networkx, copy.deepcopy, builtins sorted/min/max/round) are assumed to '
+    'third-party functions (numpy, scipy, networkx, copy.deepcopy, collections.OrderedDict.fromkeys over heap objects whose '
+    'class defines no __eq__ / __hash__: first occurrence kept, order kept; builtins sorted/min/max/round) are assumed to '
     'satisfy the contracts in pyvc/models.py; db2lin/lin2db/exp/log/sqrt/arcsinh are uninterpreted real functions '
     'with ground instances of the axioms in pyvc/axioms.py (theorems of real analysis, see lemmas/)',
 ]
